@@ -26,7 +26,7 @@ type rOp struct {
 	Close bool `json:"close,omitempty"`
 }
 
-type rCase struct {
+type retryCase struct {
 	Kind   string  `json:"kind"`
 	Data   string  `json:"data"` // hex
 	Script []rConn `json:"script"`
@@ -171,7 +171,7 @@ func genCleanConn(r *Rng) rConn {
 
 func (retrySuite) Gen(r *Rng, i int, tier string) any {
 	data := genData(r, tier)
-	c := rCase{Kind: Pick(r, []string{"h", "h", "i", "i", "e"}), Data: hex.EncodeToString(data), Alt: r.Bool()}
+	c := retryCase{Kind: Pick(r, []string{"h", "h", "i", "i", "e"}), Data: hex.EncodeToString(data), Alt: r.Bool()}
 	// the script: some faulty connections, usually followed by clean ones
 	nFaulty := 0
 	switch r.Intn(10) {
@@ -291,13 +291,13 @@ func consume(net *retryNet, body io.ReadCloser, ops []rOp) {
 	}
 }
 
-func (c rCase) net() (*retryNet, []byte) {
+func (c retryCase) net() (*retryNet, []byte) {
 	data, _ := hex.DecodeString(c.Data)
 	return &retryNet{data: data, kind: c.Kind, script: c.Script, altFault: c.Alt}, data
 }
 
 // faultFree: every connection the download can use is a clean, complete, successful one.
-func (c rCase) faultFree() bool {
+func (c retryCase) faultFree() bool {
 	if len(c.Script) == 0 {
 		return false
 	}
@@ -312,7 +312,7 @@ func (c rCase) faultFree() bool {
 var retryAPK *apk.APK
 
 func (retrySuite) Run(raw json.RawMessage) []Step {
-	var c rCase
+	var c retryCase
 	if err := json.Unmarshal(raw, &c); err != nil {
 		return nil
 	}
